@@ -205,6 +205,8 @@ def random_value(rng, tok, vocab, zipf, max_tokens):
             return ''
         if r < 0.10:
             return rng.choice(seps) * rng.randint(1, 3)        # delimiter-only
+        if r < 0.125 and kind == 'delim' and ' ' not in seps:
+            return rng.choice([' ', '  '])                     # one whitespace token, not empty
         if kind == 'alpha' and r < 0.13:
             return rng.choice(['123', '42 7', '...'])           # nothing alphabetic
         n = rng.randint(1, max_tokens)
@@ -237,6 +239,8 @@ def random_value(rng, tok, vocab, zipf, max_tokens):
     q = tok.get('q', 2)
     if r < 0.06:
         return ''
+    if r < 0.09:
+        return rng.choice([' ', '  ', ' \t'])          # whitespace-only is NOT empty for q-grams
     if r < 0.14 and not tok.get('padding', True):
         return ''.join(rng.choice('ab') for _ in range(rng.randint(1, max(1, q - 1))))  # < q chars
     alpha = rng.choice(['ab', 'abc', 'abcde', 'ab#$', 'abé日', 'aAbB', 'ab '])
